@@ -120,6 +120,14 @@ def writeHdrFile (fmt : VolFmt) (img : Img) : Bytes :=
 /-- image file of a pair -/
 def writeImgFile (img : Img) : Bytes := img.data
 
+/-- a pair whose image file holds the data at a non-zero `vox_offset` (`hdr.set_data_offset(o)`;
+    `analyze.py` `to_file_map`: the `.img` file is zero-filled up to the offset): the header stores
+    `pad.length`, the image file is `pad ‖ data`.  With `pad = []` these are `writeHdrFile`/`writeImgFile`. -/
+def writeHdrFileAt (fmt : VolFmt) (img : Img) : Bytes :=
+  hdrBlock img img.pad.length ++ (if fmt.exts then img.extender ++ extBytes img else [])
+
+def writeImgFileAt (img : Img) : Bytes := img.pad ++ img.data
+
 /-- `_sniff_meta_for` + `path_maybe_image`: read `max(sniffLen, 1024)` bytes of the header file; a
     compression error or fewer than `sniffLen` bytes ⇒ the class is not recognised ⇒ `ImageFileError` -/
 def sniffOk (fmt : VolFmt) (s : Src) : Bool :=
@@ -488,6 +496,48 @@ def tckRead (s : Src) : Except Err (List (List Bytes)) :=
       | .error e => .error e
       | .ok none => .error .bad      -- written files always carry a `file:` line
       | .ok (some off) => tckData s off
+
+/-! ### TCK: the chunked loop of `_read` (`tck.py:425-466`) -/
+
+/-- what is done with the leftover once EOF was seen (`tck.py:468-473`) -/
+def tckFinish (r : List (List Bytes) × List Bytes) : Except Err (List (List Bytes)) :=
+  match r.2 with
+  | [t] => if tripleAll f32IsInf t then .ok r.1 else .error .trunc
+  | _ => .error .trunc
+
+/-- `while not eof:` — read `B` bytes (`buffer_size`, a positive multiple of 12) at `pos`; fewer than `B`
+    bytes ⇒ `eof`; `np.frombuffer` / `reshape((-1, 3))` of the chunk; delimiters of the chunk are shifted by
+    the length of `left` (the leftover, which holds no delimiter), streamlines between delimiters are
+    appended to `done`; the rest is the new leftover.  `left`, `done` in file order. -/
+def tckChunkLoop (s : Src) (B : Nat) : Nat → Nat → List Bytes → List (List Bytes) →
+    Except Err (List (List Bytes))
+  | 0, _, _, _ => .error .bad
+  | fuel + 1, pos, left, done =>
+    match s.read pos B with
+    | .error e => .error e
+    | .ok b =>
+      if b.length % 4 ≠ 0 then .error .trunc                   -- np.frombuffer: not a multiple of 4
+      else if (b.length / 4) % 3 ≠ 0 then .error .trunc        -- reshape((-1, 3))
+      else
+        let r := tckSplit (triples (b.length / 12) b) left.reverse done.reverse
+        if b.length ≠ B then tckFinish r                       -- eof = n_read != buffer_size
+        else tckChunkLoop s B fuel (pos + B) r.2 r.1
+
+/-- the data part as `_read` really fetches it: in chunks of `B` bytes from `off` -/
+def tckDataChunked (B : Nat) (s : Src) (off : Nat) : Except Err (List (List Bytes)) :=
+  tckChunkLoop s B (s.bytes.length + 2) off [] []
+
+/-- `TckFile._read_header` + `_read` with buffer size `B` -/
+def tckReadB (B : Nat) (s : Src) : Except Err (List (List Bytes)) :=
+  match s.read 0 13 with
+  | .error e => .error e
+  | .ok m =>
+    if m ≠ tckMagic then .error .bad
+    else
+      match tckScan (s.bytes.length + 1) (s.bytes.drop 14) none with
+      | .error e => .error e
+      | .ok none => .error .bad
+      | .ok (some off) => tckDataChunked B s off
 
 structure Tck where
   lines : List Bytes             -- header lines between the magic line and the `file:` line (no `\n` inside)
